@@ -35,13 +35,14 @@ def run(chk: lib.Check):
     pr = chk.prove()
     quick = chk.tier == "quick"
     stats = collections.Counter()
-    fr_cases, fl_cases = [], []
+    fr_cases, fl_cases, bl_cases = [], [], []
     specs = corpus.model_specs(chk.tier)[: (1 if quick else 3)]
     for spec0 in specs:
         for state in ["loaded", "edited"]:
             model = corpus.load(spec0)
             rng = random.Random(f"{chk.seed}:{spec0['name']}:{state}")
             uuidmod.uuid4 = lambda rng=rng: uuidmod.UUID(int=rng.getrandbits(128), version=4)
+            hot_holders: list[str] = []
             if state == "edited":
                 r = histories.HistoryRunner(model, rng)
                 for _ in range(40):
@@ -64,6 +65,48 @@ def run(chk: lib.Check):
                     if done_del >= 6:
                         break
                 stats["subtree_deletions_before_queries"] += done_del
+                # ... and deletions that leave a single-valued relation empty which a back-reference reads THROUGH (attrgetter("source.owner"),
+                # "target.parent", ...): the candidate then has no such path (AttributeError on None) while its other paths still count
+                first_segs = set()
+                cand_classes: set = set()
+                for cls_ in {type(x) for x in histories._objects(model, rng, 3000)}:
+                    for an_ in dir(cls_):
+                        acc_ = getattr(cls_, an_, None)
+                        if isinstance(acc_, D.ReferenceSearchingAccessor):
+                            for g_ in acc_.attrs:
+                                for nm_ in g_.__reduce__()[1]:
+                                    if "." in nm_:
+                                        first_segs.add(nm_.split(".")[0])
+                                        cand_classes.update(acc_.target_classes or ())
+                ends_ = []
+                for x_ in histories._objects(model, rng, 3000):
+                    if not isinstance(x_, tuple(cand_classes)):
+                        continue
+                    for seg_ in sorted(first_segs):
+                        try:
+                            v_ = getattr(x_, seg_)
+                        except Exception:  # noqa: BLE001
+                            continue
+                        if isinstance(v_, _obj.ModelElement) and not isinstance(v_, type(x_)) and v_._element not in list(x_._element.iterancestors()):
+                            ends_.append((x_.uuid, seg_, v_))
+                rng.shuffle(ends_)
+                cut = 0
+                for xu_, seg_, v_ in ends_:
+                    if cut >= 5:
+                        break
+                    if not r._alive(v_):
+                        continue
+                    cont = r.container_of(v_)
+                    if cont is None:
+                        continue
+                    try:
+                        getattr(cont[0], cont[1]).remove(v_)
+                    except Exception:  # noqa: BLE001
+                        continue
+                    cut += 1
+                    hot_holders.append(xu_)
+                stats["deletions_emptying_a_path_segment"] += cut
+                chk.coverage["path_first_segments"] = sorted(first_segs)
             loader = model._loader
             A = graph.Abstraction()
             # ---------------- all semantic objects and, per object, every link-storing relation evaluated once
@@ -153,7 +196,26 @@ def run(chk: lib.Check):
                     fr_cases.append(([xs, A.S(u)], exp))
             # ---------------- back-reference accessors
             n_back = 0
-            for o in rng.sample(objs, min(120 if quick else 800, len(objs))):
+            # objects reached over the remaining paths of candidates that lost one path segment come first
+            hot = []
+            for xu_ in hot_holders:
+                x_ = byu.get(xu_)
+                if x_ is None:
+                    continue
+                for cls_ in {type(o_) for o_ in objs}:
+                    for an_ in dir(cls_):
+                        acc_ = getattr(cls_, an_, None)
+                        if isinstance(acc_, D.ReferenceSearchingAccessor) and (not acc_.target_classes or isinstance(x_, acc_.target_classes)):
+                            for g_ in acc_.attrs:
+                                try:
+                                    val_ = g_(x_)
+                                except Exception:  # noqa: BLE001
+                                    continue
+                                for y_ in (val_ if isinstance(val_, _obj.ElementList) else [val_]):
+                                    if isinstance(y_, cls_) and y_.uuid in byu and y_ not in hot:
+                                        hot.append(y_)
+            stats["objects_behind_a_candidate_with_an_emptied_path"] += len(hot)
+            for o in hot[:60] + rng.sample(objs, min(120 if quick else 800, len(objs))):
                 cls = type(o)
                 for attr in dir(cls):
                     acc = getattr(cls, attr, None)
@@ -178,6 +240,22 @@ def run(chk: lib.Check):
                             if any(getattr(x, "uuid", None) == o.uuid for x in vals if x is not None):
                                 want.add(cand.uuid)
                     n_back += 1
+                    # the loop model on the accessor's own candidate order
+                    if len(bl_cases) < ((15 if quick else 100) if state == "loaded" else (40 if quick else 300)) and acc.aslist is not None and (want or rng.random() < 0.2):
+                        cs_ = []
+                        for cand in list(model.search(*acc.target_classes))[:400]:
+                            ps_ = []
+                            for g in acc.attrs:
+                                try:
+                                    val = g(cand)
+                                except AttributeError:
+                                    ps_.append(None)
+                                    continue
+                                vals = val if isinstance(val, _obj.ElementList) else ([val] if val is not None else [])
+                                ps_.append([A.S(x.uuid) for x in vals if getattr(x, "uuid", None)])
+                            cs_.append([A.H(cand._element), ps_])
+                        if len(cs_) < 400:
+                            bl_cases.append(([cs_, A.S(o.uuid)], [A.H(x._element) for x in v]))
                     chk.note_case((spec0["name"], state, "backref", o.uuid, attr), nontrivial=bool(want))
                     if got != sorted(want) and acc.aslist is not None:
                         missing = [u_ for u_ in want if u_ not in got]
@@ -314,6 +392,7 @@ def run(chk: lib.Check):
             del model
     chk.correspond("From V Require Import Model.Query.", "w_find_references", fr_cases, tag="C10_refs")
     chk.correspond("From V Require Import Model.Query.", "w_filters", fl_cases, tag="C10_filt")
+    chk.correspond("From V Require Import Model.Query.", "w_backrefs_loop", bl_cases, tag="C10_backloop")
     chk.coverage.update({"counts": dict(sorted(stats.items())),
                          "rule": "every link-storing relation (attribute links, link elements and their typecast/alias views) of every semantic object is evaluated once to build the "
                                  "reverse index a full scan yields; find_references is compared with it for the most referenced objects and a random sample, back-reference "
